@@ -187,7 +187,7 @@ impl SDDSerializer {
                 let ghost n2 = nodes@;
                 let ghost e2 = table.entries();
                 let ghost og = seq![SDDAnd { prime: prime_t, sub: h }, SDDAnd { prime: prime_f, sub: l }];
-//%% @after /table\.insert\(SddPtr::BDD\(bdd\), index\);/
+//%% @after /table\.insert\(SddPtr::BDD\(bdd\), [^;]*\);/
                 proof {
                     let n3 = nodes@;
                     assert(n3[index as int].0@ =~= og);
@@ -240,7 +240,7 @@ impl SDDSerializer {
                 let ghost n2 = nodes@;
                 let ghost e2 = table.entries();
                 let ghost og = o@;
-//%% @after /table\.insert\(SddPtr::Reg\(or\), index\);/
+//%% @after /table\.insert\(SddPtr::Reg\(or\), [^;]*\);/
                 proof {
                     let n3 = nodes@;
                     let s = or.nodes@;
